@@ -35,6 +35,10 @@ TU = r"""
 #include <sbepp/sbepp.hpp>
 namespace srcexprs {
 struct entry { entry(char*, char*, std::size_t) {} entry(char*, std::nullptr_t, std::size_t) {} };
+template<typename It> bool srcexprs_cmp(const It& a, const It& b)
+{
+    return (a == b) | (a != b) | (a < b) | (a <= b) | (a > b) | (a >= b);
+}
 inline void srcexprs_size_check(const char* begin, const char* end, std::size_t offset, std::size_t size)
 {
     SBEPP_SIZE_CHECK(begin, end, offset, size);
@@ -50,8 +54,9 @@ def _tu_text():
         lines.append("template class sbepp::detail::bitset_base<%s>;" % STD[t])
     for s in UNS:
         for b in UNS:
-            lines.append("template class sbepp::detail::random_access_iterator<char, srcexprs::entry, %s, %s, %s>;"
-                         % (STD[b], STD[SGN[s]], STD[s]))
+            it = "sbepp::detail::random_access_iterator<char, srcexprs::entry, %s, %s, %s>" % (STD[b], STD[SGN[s]], STD[s])
+            lines.append("template class %s;" % it)
+            lines.append("template bool srcexprs::srcexprs_cmp(const %s&, const %s&);" % (it, it))
     return TU % "\n".join(lines)
 
 
@@ -116,6 +121,8 @@ CASTS = {"ImplicitCastExpr", "CXXStaticCastExpr", "CXXFunctionalCastExpr", "CSty
 BSWAP = {"__builtin_bswap16": 2, "__builtin_bswap32": 4, "__builtin_bswap64": 8}
 
 
+CMPNAMES = {"operator==": "eq", "operator!=": "ne", "operator<": "lt", "operator<=": "le", "operator>": "gt",
+            "operator>=": "ge"}
 INLINE = {}      # name -> (parameter names, translated return expression) of pure functions inlined at their calls
 
 
@@ -396,6 +403,18 @@ def translate(repo):
         minus = [m for m in _methods(s, "operator-") if len(_param_types(m)) == 1 and _param_types(m)[0].rstrip().endswith("&")]
         if len(plus) != 1 or len(minus) != 1:
             continue
+        cmps = {}
+        for c in s.get("inner", []):
+            if c.get("kind") != "FriendDecl":
+                continue
+            for f in c.get("inner", []):
+                if f.get("kind") == "FunctionDecl" and f.get("name") in CMPNAMES and \
+                        any(x.get("kind") == "CompoundStmt" for x in f.get("inner", [])):
+                    cmps[f["name"]] = f
+        if set(cmps) != set(CMPNAMES):
+            continue
+        for nm, tag in CMPNAMES.items():
+            defs.append(("src_it_%s_%s_%s" % (tag, sx, b), effects(cmps[nm])))
         seen.add((sx, b))
         defs.append(("src_it_add_assign_%s_%s" % (sx, b), effects(plus[0])))
         defs.append(("src_it_diff_%s_%s" % (sx, b), effects(minus[0])))
